@@ -22,6 +22,7 @@ EXPLANATION = (
     "offsets across pushes (producer arithmetic, only a debug_assert) and the numeric capacity bound itself."
     ' advance-clears is applied to every TransferControl function that stores current_file_index (ring emptied and pending_resume cleared on every path), not to advance_to_file alone.'
     ' Every function that stages a resume takes the control mutex at most once per path: the gate and the staging are one critical section.'
+    ' The byte-bound eviction in push sits in a loop and the bound is re-tested after every eviction (it evicts until the ring is within its bound or one chunk is left).'
 )
 ASSUMPTIONS = ["VecDeque push_back/pop_front/iter are FIFO", "Arc<Vec<u8>> clone shares the same bytes"]
 
@@ -508,6 +509,20 @@ def _replay_rules(facts, R):
                 has_cmp(fs, "Le", lambda a: const_val(a) is not None and const_val(a) >= 2, lambda x: is_call(x, "len") and _is_f(x[2][0], "chunks"))
             if b.path == RING + "::push" and over and keep1:
                 n_bounded += 1
+                # ... and it evicts *until* the ring is within its bound again (or down to the one chunk it must keep): the site sits in a loop, and
+                # push returns only past the negated guard - one eviction per push does not restore the bound after a large chunk
+                from analysis.flow import in_cycle as _icy
+                gpts_ = []
+                for x_, bl_ in enumerate(b.blocks):
+                    for j_, st_ in enumerate(bl_["stmts"]):
+                        if st_["k"] == "assign" and "bin" in st_["rv"] and st_["rv"]["bin"] in ("Gt", "Lt", "Ge", "Le"):
+                            tx_ = render(sym.rvalue(st_["rv"]))
+                            if "bytes_held" in tx_ and "capacity_bytes" in tx_:
+                                gpts_.append((x_, j_))
+                rets_ok = bool(gpts_) and must_cross(b, [term_pt(b, i)], return_points(b), gpts_) is None
+                R.check(_icy(b, i) and rets_ok, "evict-discipline", b.path, "evicts until within the bound",
+                        "ReplayRing::push evicts at most once per call (in a loop: %s, the byte bound is re-tested after every eviction: %s): after a chunk larger than the ones "
+                        "it displaces the ring stays above its byte bound" % (_icy(b, i), rets_ok), t.get("span"), "eviction loop exits on the negated guard")
             # every eviction site, whatever policy decides it (the byte bound in push, a chunk-count cap, releasing acknowledged chunks), leaves the
             # most recent chunk in the ring; the byte bound itself must still be enforced in push (floor below)
             R.check(keep1, "evict-discipline", b.path, "pop_front-guards",
